@@ -6,6 +6,11 @@ ALL = [f"C{i:02d}" for i in range(1, 21)]
 
 # pid -> dict(text, note, technique, design_ref, category)
 CHECKS = {}
+CHECKS["C07"] = dict(
+ text="Stencil.tla derives every row of every derivative operator (order 2/4/6/8 x one-sided/periodic/symmetric x N x i) from Lagrange's formula in exact rationals; TLC proves on the spec exactness on polynomials of degree <= p, circulant/mirror structure and support, and enumerates every state; every state is compared with the corresponding row of the complete operator matrix of the real d3x/d3y/d3z (unit-vector probing on non-cubic grids, two spacing triples) and the tensor variants with its component-wise application. By linearity this decides the property for all input fields within the enumerated N range (exhaustive).",
+ note="N from the minimum supported size to +8 (quick) / +40 (thorough); rows depend on i only through min(i, N-1-i, p/2), so larger N adds no new row classes. Float comparison within 64 ulp of the exact weight / h. Trusted: TLC, numpy.",
+ technique="TLA+ spec of exact stencil rows (Lagrange weights in rationals) model-checked with TLC; every spec state replayed against the real operator matrix",
+ design_ref="DESIGN.md 4.5, 5/C07")
 
 NA = {
  "C17": "Closed-form transcendental solutions (sin, sinh, 2F1, t^(2/3)): no state, history or case analysis for a TLA+ specification to enumerate, and TLC has neither reals nor transcendental functions; a CAS/interval technique would be a different family (DESIGN.md section 6).",
